@@ -18,3 +18,13 @@ Definition run_show (c : list N * list nat * list nat) : string :=
   let w := client_wire (split_by reads body) in
   let '(s, es) := srun_chunks data_start (split_by lens w) in
   "w=" ++ show_hex w ++ " e=" ++ String.concat " " (map show_sev es).
+
+(** a session: several messages over one connection (the client's line-start flag is threaded through
+    [session_wires]); the server is back in [data_start] after every DATA command *)
+Definition run_session (l : list (list N * list nat * list nat)) : string :=
+  let wires := session_wires true (map (fun m => split_by (snd (fst m)) (fst (fst m))) l) in
+  String.concat " ; "
+    (map (fun mw => let '(m, w) := mw in
+                    let '(s, es) := srun_chunks data_start (split_by (snd m) w) in
+                    "w=" ++ show_hex w ++ " e=" ++ String.concat " " (map show_sev es))
+         (combine l wires)).
